@@ -29,7 +29,7 @@ Definition m_word (c : Z) : bool := m_alpha c || m_digit c || (c =? 95).        
 Definition m_name_start (c : Z) : bool := m_alpha c || (c =? 95) || ((128 <=? c) && (c <=? 255)).
 Definition m_name_char (c : Z) : bool := m_name_start c || m_digit c.
 Definition m_blank (c : Z) : bool := (c =? 32) || (c =? 9).                         (* [ \t] *)
-Definition m_not_nl (c : Z) : bool := negb (c =? 10).                               (* . *)
+Definition m_not_eol (c : Z) : bool := negb (c =? 10) && negb (c =? 13).            (* [^\r\n] *)
 
 (* greedy  [class]*  : (matched, rest) *)
 Fixpoint take_while (p : Z -> bool) (s : list Z) : list Z * list Z :=
@@ -146,23 +146,22 @@ Definition scan_label (s : list Z) : option (list Z * list Z) :=
   | None => None
   end.
 
-(* \bkw\b at the start of the subject: the left \b holds because kw starts with a word byte and
-   nothing precedes; the right \b holds iff the next byte is not an ASCII word byte (bytes >= 0x80
-   are NOT word bytes in bytes mode) *)
+(* \bkw(?![a-zA-Z0-9_\x80-\xff]) at the start of the subject: the left \b holds because kw starts with
+   a word byte and nothing precedes; the lookahead holds iff the next byte is not a name byte *)
 Definition scan_keyword (kw s : list Z) : option (list Z * list Z) :=
   match kw with
   | [] => None
   | k0 :: _ =>
-    if m_word k0 && m_word (last kw 0) then
+    if m_word k0 then
       match drop_prefix kw s with
       | Some r =>
         match r with
-        | c :: _ => if m_word c then None else Some (kw, r)
+        | c :: _ => if m_name_char c then None else Some (kw, r)
         | [] => Some (kw, r)
         end
       | None => None
       end
-    else None        (* not a word-delimited literal: outside what this scanner models *)
+    else None        (* not a word-initial literal: outside what this scanner models *)
   end.
 
 Definition scan_literal (lit s : list Z) : option (list Z * list Z) :=
@@ -175,12 +174,12 @@ Definition run_matcher (m : matcher_id) (s : list Z) : option (list Z * list Z) 
   match m with
   | MCommentDash =>
     match drop_prefix [45; 45] s with
-    | Some r => let '(a, b) := take_while m_not_nl r in Some (45 :: 45 :: a, b)
+    | Some r => let '(a, b) := take_while m_not_eol r in Some (45 :: 45 :: a, b)
     | None => None
     end
   | MCommentSlash =>
     match drop_prefix [47; 47] s with
-    | Some r => let '(a, b) := take_while m_not_nl r in Some (47 :: 47 :: a, b)
+    | Some r => let '(a, b) := take_while m_not_eol r in Some (47 :: 47 :: a, b)
     | None => None
     end
   | MSpace => take_while1 m_blank s
@@ -246,54 +245,76 @@ Fixpoint lookup_bytes (m : list (list Z * list Z)) (k : list Z) : option (list Z
   | (k', v) :: r => if zlist_eqb k' k then Some v else lookup_bytes r k
   end.
 
-(* the while loop of the in-string branch. Result: value bytes (reversed) accumulated, the piece of
-   [s] consumed, and either the rest after the closing delimiter or "chunk exhausted". *)
+(* the while loop of the in-string branch. Result: value bytes accumulated (reversed), the piece of
+   [s] consumed (reversed), and either the rest after the closing delimiter or "chunk exhausted". *)
 Inductive sscan : Set :=
-| SClosed (acc_rev : list Z) (piece : list Z) (rest : list Z)
-| SOpen (acc_rev : list Z) (piece : list Z).
-
-Definition sscan_cons (pre : list Z) (r : result sscan) : result sscan :=
-  match r with
-  | Ok (SClosed a p rest) => Ok (SClosed a (pre ++ p) rest)
-  | Ok (SOpen a p) => Ok (SOpen a (pre ++ p))
-  | Err e => Err e
-  end.
+| SClosed (acc_rev : list Z) (piece_rev : list Z) (rest : list Z)
+| SOpen (acc_rev : list Z) (piece_rev : list Z).
 
 Definition byte_of_digits (ds : list Z) : Z := fold_left (fun a c => a * 10 + (c - 48)) ds 0.
 
-Fixpoint scan_string (delim : Z) (s : list Z) (acc : list Z) : result sscan :=
-  match s with
-  | [] => Ok (SOpen acc [])
-  | c :: r =>
-    if c =? delim then Ok (SClosed acc [c] r)
-    else if c =? 92 then
+(* greedy  [class]{0,n} *)
+Fixpoint take_upto (n : nat) (p : Z -> bool) (s : list Z) : list Z * list Z :=
+  match n, s with
+  | S k, c :: r => if p c then let '(a, b) := take_upto k p r in (c :: a, b) else ([], s)
+  | _, _ => ([], s)
+  end.
+
+Definition hexval (c : Z) : Z :=
+  if m_digit c then c - 48 else if (97 <=? c) && (c <=? 102) then c - 87 else c - 55.
+
+(* one escape; [r] is the text after the backslash (s[i+1:]).
+   -> (bytes appended to the value, bytes of [r] consumed with the backslash, rest) *)
+Definition escape_step (r : list Z) : result (list Z * list Z * list Z) :=
+  match r with
+  | [] => Ok ([92], [], [])                         (* backslash at the end of the chunk stays as data *)
+  | d1 :: r1 =>
+    if m_digit d1 then
       (* re.match(br'\d{1,3}', s[i+1:]);  bytes([int(...)]) raises ValueError above 255 *)
-      match r with
-      | [] => Ok (SOpen (92 :: acc) [c])                    (* backslash at the end of the chunk *)
-      | d1 :: r1 =>
-        if m_digit d1 then
-          match r1 with
-          | d2 :: r2 =>
-            if m_digit d2 then
-              match r2 with
-              | d3 :: r3 =>
-                if m_digit d3 then
-                  (if byte_of_digits [d1; d2; d3] <? 256
-                   then sscan_cons [c; d1; d2; d3] (scan_string delim r3 (byte_of_digits [d1; d2; d3] :: acc))
-                   else Err ValueError)
-                else sscan_cons [c; d1; d2] (scan_string delim r2 (byte_of_digits [d1; d2] :: acc))
-              | [] => sscan_cons [c; d1; d2] (scan_string delim r2 (byte_of_digits [d1; d2] :: acc))
-              end
-            else sscan_cons [c; d1] (scan_string delim r1 (byte_of_digits [d1] :: acc))
-          | [] => sscan_cons [c; d1] (scan_string delim r1 (byte_of_digits [d1] :: acc))
-          end
+      let '(ds, rest) := take_upto 3 m_digit r in
+      if byte_of_digits ds <? 256 then Ok ([byte_of_digits ds], ds, rest) else Err ValueError
+    else
+      match r1 with
+      | h1 :: h2 :: r3 =>
+        if (d1 =? 120) && m_hex h1 && m_hex h2 then      (* re.match(br'x[0-9a-fA-F]{2}', s[i+1:]) *)
+          Ok ([hexval h1 * 16 + hexval h2], [d1; h1; h2], r3)
+        else if (d1 =? 13) && (h1 =? 10) then            (* s[i+1:i+3] == b'\r\n' *)
+          Ok ([10], [13; 10], h2 :: r3)
         else
           match lookup_bytes string_escapes [d1] with
-          | Some v => sscan_cons [c; d1] (scan_string delim r1 (rev_append v acc))
-          | None => sscan_cons [c] (scan_string delim r (92 :: acc))   (* the backslash stays as data *)
+          | Some v => Ok (v, [d1], r1)
+          | None => Ok ([92], [], r)                     (* the backslash stays as data *)
           end
+      | [h1] =>
+        if (d1 =? 13) && (h1 =? 10) then Ok ([10], [13; 10], [])
+        else
+          match lookup_bytes string_escapes [d1] with
+          | Some v => Ok (v, [d1], r1)
+          | None => Ok ([92], [], r)
+          end
+      | [] =>
+        match lookup_bytes string_escapes [d1] with
+        | Some v => Ok (v, [d1], r1)
+        | None => Ok ([92], [], r)
+        end
       end
-    else sscan_cons [c] (scan_string delim r (c :: acc))
+  end.
+
+Fixpoint scan_string (fuel : nat) (delim : Z) (s acc pc : list Z) : result sscan :=
+  match s with
+  | [] => Ok (SOpen acc pc)
+  | c :: r =>
+    match fuel with
+    | O => Err OutOfFuel
+    | S f =>
+      if c =? delim then Ok (SClosed acc (c :: pc) r)
+      else if c =? 92 then
+        match escape_step r with
+        | Err e => Err e
+        | Ok (v, used, rest) => scan_string f delim rest (rev_append v acc) (rev_append used (c :: pc))
+        end
+      else scan_string f delim r (c :: acc) (c :: pc)
+    end
   end.
 
 (* s.index(b']]') + 2 : (s[:i], s[i:]) *)
@@ -333,13 +354,13 @@ Definition process_token (st : mstate) (line col : Z) (s : list Z)
     match s with
     | [] => Ok None
     | _ =>
-      match scan_string delim s acc with
+      match scan_string (length s) delim s acc [] with
       | Err e => Err e
-      | Ok (SClosed acc' piece rest) =>
+      | Ok (SClosed acc' pc rest) =>
         Ok (Some (Normal,
-                  Some (mk_tok KString (rev' acc') sl sc [delim] None (rev_append ext piece)),
-                  piece, rest))
-      | Ok (SOpen acc' piece) => Ok (Some (InString delim acc' sl sc (rev_append piece ext), None, piece, []))
+                  Some (mk_tok KString (rev' acc') sl sc [delim] None (rev_append ext (rev' pc))),
+                  rev' pc, rest))
+      | Ok (SOpen acc' pc) => Ok (Some (InString delim acc' sl sc (pc ++ ext), None, rev' pc, []))
       end
     end
   | InComment acc sl sc =>
@@ -428,12 +449,18 @@ Definition model_lex (chunks : list (list Z)) : result (list tok) :=
   end.
 
 (* ---------- Token.code / TokString.code *)
+Definition all_digits (e : list Z) : bool := negb (is_nil e) && forallb m_digit e.     (* bytes.isdigit() *)
+Definition rjust3 (e : list Z) : list Z := repeat 48 (3 - length e) ++ e.              (* e.rjust(3, b'0') *)
+
 Fixpoint escape_bytes (q : list Z) (data : list Z) : list Z :=
   match data with
   | [] => []
   | c :: r =>
     match lookup_bytes string_reverse_escapes [c] with
-    | Some e => 92 :: e ++ escape_bytes q r
+    | Some e =>
+      (* a numbered escape directly followed by a digit is written with three digits *)
+      let e' := if all_digits e && (match r with d :: _ => m_digit d | [] => false end) then rjust3 e else e in
+      92 :: e' ++ escape_bytes q r
     | None => if zlist_eqb [c] q then 92 :: c :: escape_bytes q r else c :: escape_bytes q r
     end
   end.
@@ -491,24 +518,46 @@ Definition py_float (s : list Z) : result (Z * Z) :=
     end.
 
 Definition mem_byte (c : Z) (s : list Z) : bool := existsb (Z.eqb c) s.
+Definition lower (c : Z) : Z := if (65 <=? c) && (c <=? 90) then c + 32 else c.          (* bytes.lower() *)
 
-(* data.split(b'.') when there is exactly one '.' *)
-Definition split_dot (s : list Z) : list Z * list Z :=
-  let '(a, b) := take_while (fun c => negb (c =? 46)) s in (a, tl b).
-
+(* [data] is already lower-cased.  data[2:].split(b'.') must give exactly two parts *)
 Definition based_value (base : Z) (data : list Z) : result (Z * Z) :=
   if mem_byte 46 data then
-    let '(ip, fp) := split_dot data in
-    i <- py_int base ip ;;
-    f <- py_int base fp ;;
-    Ok (i * base ^ zlen fp + f, base ^ zlen fp)
+    let '(ip, rest) := take_while (fun c => negb (c =? 46)) (skipn 2 data) in
+    match rest with
+    | [] => Err ValueError                               (* not enough values to unpack *)
+    | _ :: fp =>
+      if mem_byte 46 fp then Err ValueError              (* too many values to unpack *)
+      else
+        i <- py_int base (if is_nil ip then [48] else ip) ;;      (* integer or b'0' *)
+        f <- py_int base fp ;;
+        Ok (i * base ^ zlen fp + f, base ^ zlen fp)
+    end
   else
     i <- py_int base data ;; Ok (i, 1).
 
-Definition tok_value (data : list Z) : result (Z * Z) :=
-  if mem_byte 120 data then based_value 16 data          (* b'x' in self._data *)
-  else if mem_byte 98 data then based_value 2 data       (* b'b' in self._data *)
+Definition tok_value (data0 : list Z) : result (Z * Z) :=
+  let data := map lower data0 in
+  if mem_byte 120 data then based_value 16 data          (* b'x' in data *)
+  else if mem_byte 98 data then based_value 2 data       (* b'b' in data *)
   else py_float data.
+
+(* ---------- TokString.value *)
+Fixpoint replace_crlf (s : list Z) : list Z :=            (* data.replace(b'\r\n', b'\n') *)
+  match s with
+  | [] => []
+  | c :: r =>
+    match r with
+    | d :: r' => if (c =? 13) && (d =? 10) then 10 :: replace_crlf r' else c :: replace_crlf r
+    | [] => [c]
+    end
+  end.
+
+Definition tok_str_value (t : tok) : list Z :=
+  match t_ml t with
+  | Some _ => let d := replace_crlf (t_data t) in match d with 10 :: r => r | _ => d end
+  | None => t_data t
+  end.
 
 (* ---------- Lua.get_token_count *)
 Definition is_free_token (t : tok) : bool :=
